@@ -1,9 +1,10 @@
 (* Property C02 — Every read API describes one and the same graph.
    Only pinned statements; proofs in Proofs/QueryOk.v on top of the WF invariant
    (which holds after every history: C01_model_reachable_WF). *)
-From Coq Require Import List Bool Permutation.
+From Coq Require Import String List Bool Permutation.
 From GV Require Import Base.Outcome Base.AMap Model.GState Model.Creation Model.Query Spec.AGraph.
 From GV Require Import Proofs.WFDefs Proofs.AdjOk Proofs.QueryOk.
+From GV Require Import Spec.ReachDef Spec.CompSpec Spec.EdgeAdj Proofs.CompWF.
 Import ListNotations.
 
 Section C02.
@@ -25,6 +26,37 @@ Section C02.
   Theorem C02_has_node : forall (g : gstate) x,
     WF g -> has_node teqb g x = Ok (existsb (fun n => teqb (nname n) x) (nodes_vec g)).
   Proof. exact (has_node_spec teqb tltb teqb_spec). Qed.
+
+  (* name <-> position lookups are mutually inverse views of the node list: the position stored for
+     a name is where that name sits in get_all_nodes, get_node_by_index reads that very list *)
+  Theorem C02_name_position : forall (g : gstate),
+    WF g ->
+    (forall x i, get_node_index teqb g x = Ok i <-> nth_error (map nname (nodes_vec g)) i = Some x) /\
+    (forall i, get_node_by_index g i = nth_error (nodes_vec g) i) /\
+    NoDup (get_all_node_names g).
+  Proof.
+    intros g W. split; [|split].
+    - intros x i. unfold get_node_index. rewrite <- (wf_nmap _ _ _ W x i).
+      destruct (lookup teqb x (nodes_map g)); split; intros H; inversion H; reflexivity.
+    - exact (wf_nrev _ _ _ W).
+    - exact (wf_nodup _ _ _ W).
+  Qed.
+
+  (* get_successors_map / get_predecessors_map (the name-keyed adjacency maps handed out by
+     reference) list, without repetition, exactly the names joined by a stored edge group *)
+  Theorem C02_successors_map : forall (g : gstate) x,
+    WF g ->
+    NoDup (or_default teqb x (successors g)) /\
+    forall y, In y (or_default teqb x (successors g)) <->
+              (In x (names g) /\ In y (names g) /\ group teqb g (cn tltb (sp g) x y) <> None).
+  Proof. intros g x W. exact (wf_su _ _ _ W x). Qed.
+
+  Theorem C02_predecessors_map : forall (g : gstate) y,
+    WF g ->
+    NoDup (or_default teqb y (predecessors g)) /\
+    forall x, In x (or_default teqb y (predecessors g)) <->
+              (directed (sp g) = true /\ group teqb g (x, y) <> None).
+  Proof. intros g y W. exact (wf_pr _ _ _ W y). Qed.
 
   (* pair lookups answer from get_all_edges alone (stored_between = the edges of get_all_edges
      whose endpoints are the pair, in storage orientation, in insertion order), with the kind
@@ -127,4 +159,27 @@ Section C02.
     then Ok (filter (fun e => mem_name teqb (eu e) xs) (flat_map snd (edges g)))
     else Err NodeNotFound.
   Proof. exact (get_out_edges_for_nodes_spec teqb tltb teqb_spec). Qed.
+
+  (* the adjacency query the searches use (successors on a directed graph, neighbours on an
+     undirected one) succeeds on every node and lists exactly the nodes one step away along a
+     stored edge of get_all_edges (g_follow: along u -> v, on an undirected graph also against it) *)
+  Theorem C02_successors_or_neighbors : forall (g : gstate) u,
+    WF g -> In u (names g) ->
+    exists ns, get_successors_or_neighbors teqb g u = Ok ns /\
+               forall v, In v (map nname ns) <-> g_follow g u v.
+  Proof. exact (successors_or_neighbors_wf teqb tltb teqb_spec tltb_total). Qed.
+
+  (* breadth_first_search from a node returns: x first, no node twice, exactly the nodes
+     reachable from x along stored edges (reflexive-transitive closure of g_follow); from a
+     name that is not a node the unwrap of the adjacency query fails *)
+  Theorem C02_breadth_first_search : forall (g : gstate) x,
+    WF g -> In x (names g) ->
+    exists l, breadth_first_search teqb g x = Ok l /\
+              (exists t, l = x :: t) /\ NoDup l /\ (forall y, In y l <-> reach (g_follow g) x y).
+  Proof. exact (bfs_wf teqb tltb teqb_spec tltb_total). Qed.
+
+  Theorem C02_breadth_first_search_absent : forall (g : gstate) x,
+    WF g -> ~ In x (names g) ->
+    breadth_first_search teqb g x = Panic "query.rs:get_successors_or_neighbors unwrap".
+  Proof. exact (bfs_absent teqb tltb). Qed.
 End C02.
